@@ -41,6 +41,10 @@ func F32(f float32) Val { return Val{K: "float32", S: strconv.FormatFloat(float6
 // Time: a year RFC 3339 can not write (beyond 9999, before 0) is kept as "unix:<seconds>:<nanoseconds>".
 func Time(t time.Time) Val {
 	if y := t.UTC().Year(); y < 0 || y > 9999 {
+		if _, off := t.Zone(); off != 0 {
+			// (in its own zone the year may well be one RFC 3339 can write)
+			return Val{K: "time", S: fmt.Sprintf("unix:%d:%d:%d", t.Unix(), t.Nanosecond(), off)}
+		}
 		return Val{K: "time", S: fmt.Sprintf("unix:%d:%d", t.Unix(), t.Nanosecond())}
 	}
 	return Val{K: "time", S: t.Format(time.RFC3339Nano)}
@@ -133,6 +137,10 @@ func (v Val) Go() interface{} {
 	case "time":
 		if strings.HasPrefix(v.S, "unix:") {
 			var sec, nsec int64
+			var off int
+			if n, _ := fmt.Sscanf(v.S, "unix:%d:%d:%d", &sec, &nsec, &off); n == 3 {
+				return time.Unix(sec, nsec).In(time.FixedZone("", off))
+			}
 			_, _ = fmt.Sscanf(v.S, "unix:%d:%d", &sec, &nsec)
 			return time.Unix(sec, nsec).UTC()
 		}
